@@ -651,7 +651,8 @@ def unit_dispatch(hname, hist):
     names = {"type1": t1, "type2": t2}
     for label in sorted(set(c0) | set(c1)):
       a, b = c0.get(label, 0), c1.get(label, 0)
-      ctx.reach(sess, f"twin:collider-runs/{label}", core.Or(core.cmp(">", a, 0), core.cmp(">", b, 0))) if ctx.tier == "thorough" else None
+      if ctx.tier == "thorough" and label in c0:
+        ctx.reach(sess, f"twin:collider-runs/{label}", core.cmp(">", a, 0))
       ctx.prove(
         sess,
         f"same-dispatch/{label}",
